@@ -3,6 +3,7 @@ import HdVerif.Proofs.RatFloor
 import Mathlib.Tactic.Ring
 import Mathlib.Tactic.Linarith
 import Mathlib.Tactic.Push
+import Mathlib.Tactic.FieldSimp
 /-! Helper lemmas for C08 (`Props/C08.lean`): affine algebra of re-indexing, slice arithmetic, per-operation
 soundness, composition. -/
 namespace HdVerif.VolLemmas
@@ -780,5 +781,662 @@ theorem runHistory_geom {coord : Coord} (ops : List Op) : ∀ {v : Vol} {w : VSt
     | withArray shape a isInt =>
       have := (nonspatial_geom (by intro s hs; cases hs) h1).1
       simp only [runHistoryGeom]; rw [← this]; exact a2
+
+/-! ## flip, handedness -/
+
+/-- the slice `flip_spatial` uses on a flipped axis reads the axis backwards, completely -/
+theorem flip_axis_map (n : Int) (hn : 0 < n) :
+    axisOfSlice (some (some (-1), none, some (-1))) n = .ok ⟨n - 1, -1, n, n⟩ := by
+  have h1 : sliceIndices (some (-1)) none (some (-1)) n = .ok (n - 1, -1, -1) := by
+    simp only [sliceIndices]
+    have : max (-1 + n) (-1) = n - 1 := by omega
+    simp [this]
+  have h2 : getitemAxisItem (n - 1) (-1) (-1) = .ok (n - 1, -1, n) := by
+    unfold getitemAxisItem
+    have a : (-1 - (n - 1) : Int) = -n := by ring
+    have b : ¬ (-n = 0) := by omega
+    have c : -n < 0 := by omega
+    have d : Int.fdiv (n - 1) 1 = n - 1 := by rw [fdiv_pos _ _ (by decide)]; simp
+    have e : ¬ n ≤ 0 := by omega
+    simp [a, b, c, d, e, hn]
+  have h3 : sliceLen (n - 1) (-1) (-1) = n := by
+    simp only [sliceLen]
+    have : (n - 1 - -1 - 1) / (- -1) + 1 = n := by simp
+    simp [hn]
+  simp only [axisOfSlice, h1, bind, Except.bind, h2, pure, Except.pure, h3]
+
+theorem full_axis_map (n : Int) (hn : 0 < n) :
+    axisOfSlice (some (none, none, none)) n = .ok ⟨0, 1, n, n⟩ := by
+  have h1 : sliceIndices none none none n = .ok (0, n, 1) := by
+    simp [sliceIndices]
+  have h2 : getitemAxisItem 0 n 1 = .ok (0, 1, n) := by
+    unfold getitemAxisItem
+    have b : ¬ (n = 0) := by omega
+    have c : ¬ n < 0 := by omega
+    have d : Int.fdiv (n - 1) 1 = n - 1 := by rw [fdiv_pos _ _ (by decide)]; simp
+    simp [b, c, d]
+  have h3 : sliceLen 0 n 1 = n := by
+    simp [sliceLen, hn]
+  simp only [axisOfSlice, h1, bind, Except.bind, h2, pure, Except.pure, h3]
+
+def flipMap (b : Bool) (n : Int) : AxMap := if b then ⟨n - 1, -1, n, n⟩ else ⟨0, 1, n, n⟩
+
+theorem flip_item_axis (b : Bool) (n : Int) (hn : 0 < n) :
+    (do let s ← optItemSlice (some (if b then Item.slice (some (-1)) none (some (-1)) else Item.slice none none none)) n
+        axisOfSlice s n) = .ok (flipMap b n) := by
+  cases b
+  · simp only [optItemSlice, itemSlice, checkSlice, bind, Except.bind, pure, Except.pure, Bool.false_eq_true, if_false]
+    exact full_axis_map n hn
+  · have c : checkSlice (some (-1)) none n = .ok 0 := by
+      unfold checkSlice
+      have : ¬ (-1 < -n) := by omega
+      have : ¬ (-1 ≥ n) := by omega
+      simp [*]
+    simp only [optItemSlice, itemSlice, c, bind, Except.bind, pure, Except.pure, if_true]
+    exact flip_axis_map n hn
+
+theorem flipG_spec (sz : AxMap → Int) (g : Geom) (axes : List Int) (hp : g.Pos)
+    (hv : (axes.length > 3 || axes.any (fun a => !validAxis a)) = false) :
+    flipG sz g axes = .ok (g.remap sz (flipMap (axes.contains 0) g.n0) (flipMap (axes.contains 1) g.n1)
+      (flipMap (axes.contains 2) g.n2),
+      remapSrc (flipMap (axes.contains 0) g.n0) (flipMap (axes.contains 1) g.n1) (flipMap (axes.contains 2) g.n2)) := by
+  simp only [flipG, flipItems, hv, Bool.false_eq_true, if_false, bind, Except.bind, getitemG, getitemMaps, List.map,
+    List.length_cons, List.length_nil]
+  generalize axes.contains 0 = b0
+  generalize axes.contains 1 = b1
+  generalize axes.contains 2 = b2
+  have h0 := flip_item_axis b0 g.n0 hp.1
+  have h1 := flip_item_axis b1 g.n1 hp.2.1
+  have h2 := flip_item_axis b2 g.n2 hp.2.2
+  obtain ⟨s0, e0, f0⟩ := bind_ok.mp h0
+  obtain ⟨s1, e1, f1⟩ := bind_ok.mp h1
+  obtain ⟨s2, e2, f2⟩ := bind_ok.mp h2
+  simp only [List.getElem?_cons_zero, List.getElem?_cons_succ]
+  have : ¬ (0 + 1 + 1 + 1 > 3) := by decide
+  simp only [this, if_false, pure, Except.pure, e0, e1, e2, f0, f1, f2]
+
+/-- Gram identity: `det² = ‖c0‖²‖c1‖²‖c2‖²` up to the terms with the mutual dot products -/
+theorem triple_sq (g : Geom) :
+    g.triple ^ 2 = g.c0.dot g.c0 * g.c1.dot g.c1 * g.c2.dot g.c2 + 2 * g.c0.dot g.c1 * g.c0.dot g.c2 * g.c1.dot g.c2
+      - g.c0.dot g.c0 * (g.c1.dot g.c2) ^ 2 - g.c1.dot g.c1 * (g.c0.dot g.c2) ^ 2 - g.c2.dot g.c2 * (g.c0.dot g.c1) ^ 2 := by
+  simp only [Geom.triple, V3.dot, V3.cross]; ring
+
+theorem triple_ne_zero {g : Geom} (h : g.Orth) : g.triple ≠ 0 := by
+  obtain ⟨o1, o2, o3, o4, o5, o6⟩ := h
+  intro hz
+  have := triple_sq g
+  rw [hz, o1, o2, o3] at this
+  have h2 : g.c0.dot g.c0 * g.c1.dot g.c1 * g.c2.dot g.c2 ≠ 0 := mul_ne_zero (mul_ne_zero o4 o5) o6
+  apply h2
+  linarith
+
+theorem triple_remap (sz : AxMap → Int) (g : Geom) (m0 m1 m2 : AxMap) :
+    (g.remap sz m0 m1 m2).triple = (m0.step * m1.step * m2.step : Int) * g.triple := by
+  simp only [Geom.triple, Geom.remap, V3.dot, V3.cross, V3.smul]; push_cast; ring
+
+theorem validAxis_cases {a : Int} (h : validAxis a = true) : a = 0 ∨ a = 1 ∨ a = 2 := by
+  simp only [validAxis, Bool.or_eq_true, beq_iff_eq] at h
+  rcases h with (h | h) | h <;> simp [h]
+
+theorem flip_one_triple (sz : AxMap → Int) {g : Geom} {a : Int} {r : GStep} (hp : g.Pos) (h : flipG sz g [a] = .ok r) :
+    r.1.triple = - g.triple := by
+  by_cases hv : validAxis a = true
+  · have hv' : (([a] : List Int).length > 3 || ([a] : List Int).any (fun a => !validAxis a)) = false := by simp [hv]
+    rw [flipG_spec sz g [a] hp hv'] at h
+    simp only [Except.ok.injEq] at h
+    subst h
+    rw [triple_remap]
+    rcases validAxis_cases hv with rfl | rfl | rfl <;> simp [flipMap]
+  · have : flipItems [a] = .error .value := by simp [flipItems, hv]
+    simp [flipG, this, bind, Except.bind] at h
+
+theorem swap_triple {g : Geom} {a b : Int} {r : GStep} (h : swapG g a b = .ok r) : r.1.triple = - g.triple := by
+  simp only [swapG, swapList] at h
+  split at h
+  · simp [bind, Except.bind] at h
+  · rename_i hv
+    simp only [Bool.or_eq_true, Bool.not_eq_true', not_or, Bool.not_eq_false] at hv
+    obtain ⟨ha, hb⟩ := hv
+    split at h
+    · simp [bind, Except.bind] at h
+    · rename_i hne
+      rcases validAxis_cases ha with rfl | rfl | rfl <;> rcases validAxis_cases hb with rfl | rfl | rfl <;>
+        first
+        | (exact absurd rfl hne)
+        | (simp [bind, Except.bind, permuteG, permOfList, Ax.ofInt, pure, Except.pure] at h
+           subst h
+           simp only [Geom.triple, Geom.permute, Geom.col, V3.dot, V3.cross]; ring)
+
+theorem ensureHandedness_spec (sz : AxMap → Int) {g : Geom} {hd : String} {fa : Option Int} {sa : Option (List Int)}
+    {r : GStep} {wantLeft : Bool} (hp : g.Pos) (ho : g.Orth) (hw : parseHandedness hd = some wantLeft)
+    (h : ensureHandednessG sz g hd fa sa = .ok r) : r.1.leftHanded = wantLeft := by
+  have flipped : ∀ {r : GStep}, r.1.triple = - g.triple → (wantLeft == g.leftHanded) = false → r.1.leftHanded = wantLeft := by
+    intro r ht hne
+    have hnz := triple_ne_zero ho
+    simp only [Geom.leftHanded, ht] at hne ⊢
+    cases wantLeft
+    · simp only [Bool.false_eq, beq_eq_false_iff_ne, ne_eq, Bool.not_eq_false, decide_eq_true_eq] at hne
+      simp only [decide_eq_false_iff_not, not_lt]; linarith
+    · simp only [beq_eq_false_iff_ne, ne_eq, Bool.true_eq, decide_eq_true_eq] at hne
+      simp only [decide_eq_true_eq]
+      rcases lt_or_gt_of_ne hnz with hlt | hgt
+      · exact absurd hlt hne
+      · linarith
+  unfold ensureHandednessG at h
+  split at h
+  · cases h
+  · rw [hw] at h
+    dsimp only at h
+    split at h
+    · rename_i he
+      simp only [Except.ok.injEq] at h
+      subst h
+      have : wantLeft = g.leftHanded := by simpa using he
+      exact this.symm
+    · rename_i he
+      have he' : (wantLeft == g.leftHanded) = false := by simpa using he
+      split at h
+      · exact flipped (flip_one_triple sz hp h) he'
+      · exact flipped (swap_triple h) he'
+      · cases h
+      · cases h
+
+/-! ## pad / crop to a shape -/
+
+/-- T9a: `pad_to_spatial_shape` on one axis -/
+theorem padToAxis_ok {n o f b : Int} (h : padToAxis n o = .ok (f, b)) :
+    n ≤ o ∧ f = (o - n) / 2 ∧ f + b = o - n := by
+  unfold padToAxis at h
+  simp only [fdiv_pos _ _ (by decide : (0 : Int) < 2)] at h
+  split at h
+  · cases h
+  · rename_i hc
+    simp only [decide_eq_true_eq, not_lt] at hc
+    simp only [Bool.not_eq_true', decide_eq_false_iff_not, not_lt, hc, if_true, Except.ok.injEq, Prod.mk.injEq] at h
+    obtain ⟨rfl, rfl⟩ := h
+    omega
+
+/-- T9b: `crop_to_spatial_shape` on one axis -/
+theorem cropToAxis_ok {n o f e : Int} (h : cropToAxis n o = .ok (f, e)) :
+    o ≤ n ∧ f = (n - o) / 2 ∧ e = f + o := by
+  unfold cropToAxis at h
+  simp only [fdiv_pos _ _ (by decide : (0 : Int) < 2)] at h
+  split at h
+  · cases h
+  · rename_i hc
+    simp only [decide_eq_true_eq, not_lt] at hc
+    simp only [Bool.not_eq_true', decide_eq_false_iff_not, not_lt, hc, if_true, Except.ok.injEq, Prod.mk.injEq] at h
+    obtain ⟨rfl, rfl⟩ := h
+    omega
+
+/-- T9c: `pad_or_crop_to_spatial_shape` on one axis -/
+theorem padOrCropAxis_ok {n o pf pb cs ce : Int} (h : padOrCropAxis n o = .ok ((pf, pb), (cs, ce))) :
+    (n < o → pf = (o - n) / 2 ∧ pf + pb = o - n ∧ cs = 0 ∧ ce = n) ∧
+    (o < n → pf = 0 ∧ pb = 0 ∧ cs = (n - o) / 2 ∧ ce = cs + o) ∧
+    (o = n → pf = 0 ∧ pb = 0 ∧ cs = 0 ∧ ce = n) := by
+  unfold padOrCropAxis at h
+  simp only [fdiv_pos _ _ (by decide : (0 : Int) < 2), Except.ok.injEq, Prod.mk.injEq] at h
+  obtain ⟨⟨rfl, rfl⟩, ⟨rfl, rfl⟩⟩ := h
+  refine ⟨fun hlt => ?_, fun hlt => ?_, fun heq => ?_⟩
+  · have : o - n > 0 := by omega
+    simp [this]; omega
+  · have h1 : ¬ (o - n > 0) := by omega
+    have h2 : o - n < 0 := by omega
+    simp [h1, h2]; omega
+  · subst heq
+    simp
+
+/-- a `start:stop` slice with non-negative in-range bounds selects `stop - start` voxels starting at `start` -/
+def axisOfItem (it : Option Item) (n : Int) : Except ErrKind AxMap := do
+  let s ← optItemSlice it n
+  axisOfSlice s n
+
+theorem checkSlice_ok {a b : Option Int} {n w : Int} (h : checkSlice a b n = .ok w) :
+    (∀ f, a = some f → -n ≤ f ∧ f < n) ∧ (∀ e, b = some e → -n - 1 ≤ e ∧ e ≤ n) := by
+  unfold checkSlice at h
+  cases a <;> cases b <;> simp only at h <;> grind
+
+theorem range_axis_map {n f e : Int} {m : AxMap} (h : axisOfItem (some (Item.slice (some f) (some e) none)) n = .ok m)
+    (hf : 0 ≤ f) (he : f < n → 0 ≤ e) : m = ⟨f, 1, e - f, e - f⟩ ∧ f < e ∧ e ≤ n := by
+  obtain ⟨s, hs, h⟩ := bind_ok.mp h
+  simp only [optItemSlice, itemSlice] at hs
+  obtain ⟨s', hs', hs⟩ := bind_ok.mp hs
+  obtain ⟨_, hc, hs'⟩ := bind_ok.mp hs'
+  simp only [pure, Except.pure, Except.ok.injEq] at hs hs'
+  subst hs' hs
+  obtain ⟨hb1, hb2⟩ := checkSlice_ok hc
+  have hb := hb1 f rfl
+  have hb' := hb2 e rfl
+  have he := he hb.2
+  simp only [axisOfSlice] at h
+  obtain ⟨⟨a, l, st⟩, h1, h⟩ := bind_ok.mp h
+  dsimp only at h
+  obtain ⟨⟨first, step, size⟩, h2, h⟩ := bind_ok.mp h
+  simp only [pure, Except.pure, Except.ok.injEq] at h
+  have e1 : a = f ∧ l = e ∧ st = 1 := by
+    simp only [sliceIndices] at h1
+    have h0 : ¬ ((1 : Int) = 0) := by decide
+    have h3 : ¬ ((1 : Int) < 0) := by decide
+    have h4 : ¬ f < 0 := by omega
+    have h5 : ¬ e < 0 := by omega
+    simp only [h0, h3, h4, h5, if_false, Except.ok.injEq, Prod.mk.injEq] at h1
+    omega
+  obtain ⟨ea, el, est⟩ := e1
+  rw [ea, el, est] at h2 h
+  obtain ⟨r1, r2, r3⟩ := getitemAxisItem_ok (by decide) h2
+  rcases r3 with ⟨_, hlt, hsz⟩ | ⟨hneg, _, _⟩
+  · have hsz' : size = e - f := by rw [hsz]; simp
+    have hl : sliceLen f e 1 = e - f := by simp [sliceLen, hlt]
+    rw [r1, r2, hsz', hl] at h
+    exact ⟨h.symm, hlt, hb'.2⟩
+  · exact absurd hneg (by decide)
+
+
+theorem getitemMaps_axes {g : Geom} {items : List Item} {m0 m1 m2 : AxMap} (h : getitemMaps g items = .ok (m0, m1, m2)) :
+    axisOfItem items[0]? g.n0 = .ok m0 ∧ axisOfItem items[1]? g.n1 = .ok m1 ∧ axisOfItem items[2]? g.n2 = .ok m2 := by
+  obtain ⟨_, s0, s1, s2, e0, e1, e2, f0, f1, f2⟩ := getitemMaps_ok h
+  simp only [axisOfItem, e0, e1, e2, bind, Except.bind, f0, f1, f2, and_self]
+
+theorem shape3_ok {s : List Int} {a b c : Int} (h : shape3 s = .ok (a, b, c)) : s = [a, b, c] := by
+  unfold shape3 at h
+  split at h
+  · simp only [Except.ok.injEq, Prod.mk.injEq] at h; obtain ⟨rfl, rfl, rfl⟩ := h; rfl
+  · cases h
+
+/-- `crop_to_spatial_shape`: an accepted request yields exactly the requested shape -/
+theorem cropToG_shape (sz : AxMap → Int) (hsz : SzOk sz) {g : Geom} {s : List Int} {r : GStep}
+    (h : cropToG sz g s = .ok r) : s = [r.1.n0, r.1.n1, r.1.n2] := by
+  simp only [cropToG] at h
+  obtain ⟨items, hi, h⟩ := bind_ok.mp h
+  simp only [cropToItems] at hi
+  obtain ⟨⟨o0, o1, o2⟩, hs, hi⟩ := bind_ok.mp hi
+  dsimp only at hi
+  obtain ⟨⟨f0, e0⟩, c0, hi⟩ := bind_ok.mp hi
+  dsimp only at hi
+  obtain ⟨⟨f1, e1⟩, c1, hi⟩ := bind_ok.mp hi
+  dsimp only at hi
+  obtain ⟨⟨f2, e2⟩, c2, hi⟩ := bind_ok.mp hi
+  simp only [pure, Except.pure, Except.ok.injEq] at hi
+  subst hi
+  simp only [getitemG] at h
+  obtain ⟨⟨m0, m1, m2⟩, hm, h⟩ := bind_ok.mp h
+  simp only [pure, Except.pure, Except.ok.injEq] at h
+  subst h
+  obtain ⟨a0, a1, a2⟩ := getitemMaps_axes hm
+  simp only [List.getElem?_cons_zero, List.getElem?_cons_succ] at a0 a1 a2
+  obtain ⟨p0, q0, r0⟩ := cropToAxis_ok c0
+  obtain ⟨p1, q1, r1⟩ := cropToAxis_ok c1
+  obtain ⟨p2, q2, r2⟩ := cropToAxis_ok c2
+  obtain ⟨x0, _, _⟩ := range_axis_map a0 (by omega) (by omega)
+  obtain ⟨x1, _, _⟩ := range_axis_map a1 (by omega) (by omega)
+  obtain ⟨x2, _, _⟩ := range_axis_map a2 (by omega) (by omega)
+  rw [shape3_ok hs]
+  have z0 : sz m0 = e0 - f0 := by rw [hsz m0 (by rw [x0]), x0]
+  have z1 : sz m1 = e1 - f1 := by rw [hsz m1 (by rw [x1]), x1]
+  have z2 : sz m2 = e2 - f2 := by rw [hsz m2 (by rw [x2]), x2]
+  simp only [Geom.remap, z0, z1, z2]
+  congr 1
+  · omega
+  · congr 1
+    · omega
+    · congr 1; omega
+
+
+theorem fullPadWidth_nested2 {f0 b0 f1 b1 f2 b2 : Int} {full : FullPad}
+    (h : fullPadWidth (.nested [[f0, b0], [f1, b1], [f2, b2]]) = .ok full) : full = ((f0, b0), (f1, b1), (f2, b2)) := by
+  simp only [fullPadWidth, rawPadWidth, bind, Except.bind] at h
+  split at h
+  · cases h
+  · simp only [pure, Except.pure, Except.ok.injEq] at h; exact h.symm
+
+theorem padG_nested2_shape (sz : AxMap → Int) (hsz : SzOk sz) {g : Geom} {f0 b0 f1 b1 f2 b2 : Int} {r : GStep}
+    (h : padG sz g (.nested [[f0, b0], [f1, b1], [f2, b2]]) = .ok r) :
+    r.1.n0 = g.n0 + f0 + b0 ∧ r.1.n1 = g.n1 + f1 + b1 ∧ r.1.n2 = g.n2 + f2 + b2 ∧
+    r.2 = remapSrc (padAxis g.n0 f0 b0) (padAxis g.n1 f1 b1) (padAxis g.n2 f2 b2) := by
+  simp only [padG] at h
+  obtain ⟨full, hf, h⟩ := bind_ok.mp h
+  simp only [pure, Except.pure, Except.ok.injEq] at h
+  subst h
+  rw [fullPadWidth_nested2 hf]
+  simp only [padFullG, Geom.remap]
+  exact ⟨hsz _ rfl, hsz _ rfl, hsz _ rfl, trivial⟩
+
+/-- `pad_to_spatial_shape`: an accepted request yields exactly the requested shape -/
+theorem padToG_shape (sz : AxMap → Int) (hsz : SzOk sz) {g : Geom} {s : List Int} {r : GStep}
+    (h : padToG sz g s = .ok r) : s = [r.1.n0, r.1.n1, r.1.n2] := by
+  simp only [padToG] at h
+  obtain ⟨w, hw, h⟩ := bind_ok.mp h
+  simp only [padToWidth] at hw
+  obtain ⟨⟨o0, o1, o2⟩, hs, hw⟩ := bind_ok.mp hw
+  dsimp only at hw
+  obtain ⟨⟨f0, b0⟩, c0, hw⟩ := bind_ok.mp hw
+  dsimp only at hw
+  obtain ⟨⟨f1, b1⟩, c1, hw⟩ := bind_ok.mp hw
+  dsimp only at hw
+  obtain ⟨⟨f2, b2⟩, c2, hw⟩ := bind_ok.mp hw
+  simp only [pure, Except.pure, Except.ok.injEq] at hw
+  subst hw
+  obtain ⟨z0, z1, z2, _⟩ := padG_nested2_shape sz hsz h
+  obtain ⟨_, _, r0⟩ := padToAxis_ok c0
+  obtain ⟨_, _, r1⟩ := padToAxis_ok c1
+  obtain ⟨_, _, r2⟩ := padToAxis_ok c2
+  rw [shape3_ok hs, z0, z1, z2]
+  congr 1
+  · omega
+  · congr 1
+    · omega
+    · congr 1; omega
+
+/-- `pad_or_crop_to_spatial_shape`: an accepted request yields exactly the requested shape -/
+theorem padOrCropG_shape (sz : AxMap → Int) (hsz : SzOk sz) {g : Geom} {s : List Int} {r : GStep}
+    (h : padOrCropG sz g s = .ok r) : s = [r.1.n0, r.1.n1, r.1.n2] := by
+  simp only [padOrCropG] at h
+  obtain ⟨⟨items, w⟩, hpl, h⟩ := bind_ok.mp h
+  dsimp only at h
+  obtain ⟨⟨g1, f1⟩, h1, h⟩ := bind_ok.mp h
+  dsimp only at h
+  obtain ⟨⟨g2, f2⟩, h2, h⟩ := bind_ok.mp h
+  simp only [pure, Except.pure, Except.ok.injEq] at h
+  subst h
+  simp only [padOrCropPlan] at hpl
+  obtain ⟨⟨o0, o1, o2⟩, hs, hpl⟩ := bind_ok.mp hpl
+  dsimp only at hpl
+  obtain ⟨⟨⟨pf0, pb0⟩, ⟨cs0, ce0⟩⟩, c0, hpl⟩ := bind_ok.mp hpl
+  dsimp only at hpl
+  obtain ⟨⟨⟨pf1, pb1⟩, ⟨cs1, ce1⟩⟩, c1, hpl⟩ := bind_ok.mp hpl
+  dsimp only at hpl
+  obtain ⟨⟨⟨pf2, pb2⟩, ⟨cs2, ce2⟩⟩, c2, hpl⟩ := bind_ok.mp hpl
+  simp only [pure, Except.pure, Except.ok.injEq, Prod.mk.injEq] at hpl
+  obtain ⟨rfl, rfl⟩ := hpl
+  simp only [getitemG] at h1
+  obtain ⟨⟨m0, m1, m2⟩, hm, h1⟩ := bind_ok.mp h1
+  simp only [pure, Except.pure, Except.ok.injEq, Prod.mk.injEq] at h1
+  obtain ⟨rfl, rfl⟩ := h1
+  obtain ⟨a0, a1, a2⟩ := getitemMaps_axes hm
+  simp only [List.getElem?_cons_zero, List.getElem?_cons_succ] at a0 a1 a2
+  obtain ⟨u0, v0, w0⟩ := padOrCropAxis_ok c0
+  obtain ⟨u1, v1, w1⟩ := padOrCropAxis_ok c1
+  obtain ⟨u2, v2, w2⟩ := padOrCropAxis_ok c2
+  obtain ⟨x0, _, _⟩ := range_axis_map a0 (by omega) (by omega)
+  obtain ⟨x1, _, _⟩ := range_axis_map a1 (by omega) (by omega)
+  obtain ⟨x2, _, _⟩ := range_axis_map a2 (by omega) (by omega)
+  have z0 : sz m0 = ce0 - cs0 := by rw [hsz m0 (by rw [x0]), x0]
+  have z1 : sz m1 = ce1 - cs1 := by rw [hsz m1 (by rw [x1]), x1]
+  have z2 : sz m2 = ce2 - cs2 := by rw [hsz m2 (by rw [x2]), x2]
+  obtain ⟨y0, y1, y2, _⟩ := padG_nested2_shape sz hsz h2
+  simp only [Geom.remap, z0, z1, z2] at y0 y1 y2
+  rw [shape3_ok hs]
+  simp only
+  rw [y0, y1, y2]
+  congr 1
+  · omega
+  · congr 1
+    · omega
+    · congr 1; omega
+
+/-! ## padding values -/
+
+theorem padArray_constant {v : Vol} {f : I3 → I3} {o : PadOpts} {a : I3 → List Nat → Rat} {b : Bool}
+    (hm : o.mode = "CONSTANT") (h : padArray v f o = .ok (a, b)) (j : I3) (hj : v.geom.inRange (f j) = false) (c : List Nat) :
+    a j c = castTo v.isInt o.cval ∧ b = v.isInt := by
+  unfold padArray at h
+  have : PadMode.parse o.mode = some .constant := by rw [hm]; decide
+  rw [this] at h
+  simp only [Except.ok.injEq, Prod.mk.injEq] at h
+  obtain ⟨rfl, rfl⟩ := h
+  simp [hj]
+
+theorem padArray_edge {v : Vol} {f : I3 → I3} {o : PadOpts} {a : I3 → List Nat → Rat} {b : Bool}
+    (hm : o.mode = "EDGE") (h : padArray v f o = .ok (a, b)) (j : I3) (hj : v.geom.inRange (f j) = false) (c : List Nat) :
+    a j c = v.arr (v.geom.clamp (f j)) c ∧ b = v.isInt := by
+  unfold padArray at h
+  have : PadMode.parse o.mode = some .edge := by rw [hm]; decide
+  rw [this] at h
+  simp only [Except.ok.injEq, Prod.mk.injEq] at h
+  obtain ⟨rfl, rfl⟩ := h
+  simp [hj]
+
+/-- the index `Geom.clamp` returns is a voxel, and it is the index itself for a voxel -/
+theorem clamp_inRange {g : Geom} (hp : g.Pos) (i : I3) : g.inRange (g.clamp i) = true := by
+  rw [inRange_iff]
+  obtain ⟨h0, h1, h2⟩ := hp
+  simp only [Geom.clamp, clampI]
+  refine ⟨?_, ?_, ?_⟩ <;> (repeat' split) <;> omega
+
+/-- per axis the clamped index is the nearest one inside `0 .. n-1` -/
+theorem clampI_nearest {x n : Int} (k : Int) (hk : 0 ≤ k ∧ k < n) :
+    (if clampI x n ≤ x then x - clampI x n else clampI x n - x) ≤ (if k ≤ x then x - k else k - x) := by
+  simp only [clampI]
+  (repeat' split) <;> omega
+
+def isStat (m : PadMode) : Bool := m == .minimum || m == .maximum || m == .mean || m == .median
+
+/-- statistic modes, whole array: every new voxel holds the statistic of all input values (cast to the dtype) -/
+theorem padArray_stat_global {v : Vol} {f : I3 → I3} {o : PadOpts} {a : I3 → List Nat → Rat} {b : Bool} {mode : PadMode}
+    (hm : PadMode.parse o.mode = some mode) (hs : isStat mode = true)
+    (hpc : (o.perChannel && !(v.cshape.isEmpty || v.cshape == [1])) = false)
+    (h : padArray v f o = .ok (a, b)) (j : I3) (hj : v.geom.inRange (f j) = false) (c : List Nat) :
+    ∃ x, statOf mode v.values = some x ∧ a j c = castTo v.isInt x ∧ b = v.isInt := by
+  unfold padArray at h
+  rw [hm] at h
+  dsimp only at h
+  have hpc' : (o.perChannel && (mode == .minimum || mode == .maximum || mode == .mean || mode == .median) &&
+      !(v.cshape.isEmpty || v.cshape == [1])) = false := by
+    simp only [isStat] at hs
+    rw [hs, Bool.and_true]; exact hpc
+  cases mode <;> simp [isStat] at hs <;> simp only [hpc', Bool.false_eq_true, if_false] at h <;>
+  · split at h
+    · cases h
+    · rename_i x hx
+      simp only [Except.ok.injEq, Prod.mk.injEq] at h
+      obtain ⟨rfl, rfl⟩ := h
+      exact ⟨x, hx, by simp [hj], rfl⟩
+
+
+theorem lookup_map_self {α β} [BEq α] [LawfulBEq α] (l : List α) (g : α → β) (x : α) (hx : x ∈ l) :
+    (l.map fun c => (c, g c)).lookup x = some (g x) := by
+  induction l with
+  | nil => cases hx
+  | cons y ys ih =>
+    simp only [List.map, List.lookup]
+    by_cases hxy : x = y
+    · subst hxy; simp
+    · have : (x == y) = false := by simpa using hxy
+      simp only [this]
+      exact ih (by cases hx with | head => exact absurd rfl hxy | tail _ h => exact h)
+
+theorem table_lookup {cs : List (List Nat)} {g : List Nat → Option Rat} {c : List Nat} {d : Rat} (hc : c ∈ cs)
+    (hany : ((cs.map fun c => (c, g c)).any fun e => e.2.isNone) = false) :
+    ∃ x, g c = some x ∧ tableGet (cs.map fun c => (c, g c)) c d = x := by
+  simp only [tableGet]
+  rw [lookup_map_self cs g c hc]
+  simp only [List.any_eq_false, List.mem_map, forall_exists_index, and_imp] at hany
+  have := hany _ c hc rfl
+  cases hst : g c with
+  | none => simp [hst] at this
+  | some x => exact ⟨x, rfl, rfl⟩
+
+/-- statistic modes, per channel: new voxels of channel `c` hold the statistic of that channel; the result is a float array -/
+theorem padArray_stat_perChannel {v : Vol} {f : I3 → I3} {o : PadOpts} {a : I3 → List Nat → Rat} {b : Bool} {mode : PadMode}
+    (hm : PadMode.parse o.mode = some mode) (hs : isStat mode = true)
+    (hpc : (o.perChannel && !(v.cshape.isEmpty || v.cshape == [1])) = true)
+    (h : padArray v f o = .ok (a, b)) (j : I3) (hj : v.geom.inRange (f j) = false) (c : List Nat)
+    (hc : c ∈ chanIndices v.cshape) :
+    ∃ x, statOf mode (v.channelValues c) = some x ∧ a j c = castTo v.isInt x ∧ b = false := by
+  unfold padArray at h
+  rw [hm] at h
+  dsimp only at h
+  have hpc' : (o.perChannel && (mode == .minimum || mode == .maximum || mode == .mean || mode == .median) &&
+      !(v.cshape.isEmpty || v.cshape == [1])) = true := by
+    simp only [isStat] at hs
+    rw [hs, Bool.and_true]; exact hpc
+  cases mode <;> simp [isStat] at hs <;> simp only [hpc', if_true] at h <;>
+  · split at h
+    · cases h
+    · rename_i hany
+      simp only [Except.ok.injEq, Prod.mk.injEq] at h
+      obtain ⟨rfl, rfl⟩ := h
+      simp only [Bool.not_eq_true] at hany
+      obtain ⟨y, hy, hl⟩ := table_lookup (d := v.arr (f j) c) hc hany
+      cases hst : statOf _ (v.channelValues c) with
+      | none => simp [hst] at hy
+      | some x =>
+        refine ⟨x, rfl, ?_, rfl⟩
+        simp only [hj, Bool.false_eq_true, if_false]
+        rw [hl]
+        simp [hst] at hy
+        exact hy.symm
+
+theorem foldl_min_le (l : List Rat) (m : Rat) :
+    (l.foldl (fun m y => if y < m then y else m) m ≤ m) ∧ (∀ x ∈ l, l.foldl (fun m y => if y < m then y else m) m ≤ x) ∧
+    (l.foldl (fun m y => if y < m then y else m) m = m ∨ l.foldl (fun m y => if y < m then y else m) m ∈ l) := by
+  induction l generalizing m with
+  | nil => simp
+  | cons y ys ih =>
+    simp only [List.foldl]
+    obtain ⟨a, b, c⟩ := ih (if y < m then y else m)
+    by_cases hym : y < m
+    · simp only [hym, if_true] at a b c ⊢
+      refine ⟨by linarith, ?_, ?_⟩
+      · intro x hx
+        cases hx with
+        | head => exact a
+        | tail _ h => exact b x h
+      · rcases c with c | c
+        · right; rw [c]; exact List.mem_cons_self ..
+        · right; exact List.mem_cons_of_mem _ c
+    · simp only [hym, if_false] at a b c ⊢
+      refine ⟨a, ?_, ?_⟩
+      · intro x hx
+        cases hx with
+        | head => linarith
+        | tail _ h => exact b x h
+      · rcases c with c | c
+        · left; exact c
+        · right; exact List.mem_cons_of_mem _ c
+
+/-- `MINIMUM` really is the minimum of the values -/
+theorem listMin_spec {l : List Rat} {m : Rat} (h : listMin l = some m) : m ∈ l ∧ ∀ x ∈ l, m ≤ x := by
+  cases l with
+  | nil => cases h
+  | cons x xs =>
+    simp only [listMin, Option.some.injEq] at h
+    obtain ⟨a, b, c⟩ := foldl_min_le xs x
+    rw [h] at a b c
+    refine ⟨?_, ?_⟩
+    · rcases c with c | c
+      · rw [c]; exact List.mem_cons_self ..
+      · exact List.mem_cons_of_mem _ c
+    · intro y hy
+      cases hy with
+      | head => exact a
+      | tail _ h' => exact b y h'
+
+theorem foldl_max_ge (l : List Rat) (m : Rat) :
+    (m ≤ l.foldl (fun m y => if m < y then y else m) m) ∧ (∀ x ∈ l, x ≤ l.foldl (fun m y => if m < y then y else m) m) ∧
+    (l.foldl (fun m y => if m < y then y else m) m = m ∨ l.foldl (fun m y => if m < y then y else m) m ∈ l) := by
+  induction l generalizing m with
+  | nil => simp
+  | cons y ys ih =>
+    simp only [List.foldl]
+    obtain ⟨a, b, c⟩ := ih (if m < y then y else m)
+    by_cases hym : m < y
+    · simp only [hym, if_true] at a b c ⊢
+      refine ⟨by linarith, ?_, ?_⟩
+      · intro x hx
+        cases hx with
+        | head => exact a
+        | tail _ h => exact b x h
+      · rcases c with c | c
+        · right; rw [c]; exact List.mem_cons_self ..
+        · right; exact List.mem_cons_of_mem _ c
+    · simp only [hym, if_false] at a b c ⊢
+      refine ⟨a, ?_, ?_⟩
+      · intro x hx
+        cases hx with
+        | head => linarith
+        | tail _ h => exact b x h
+      · rcases c with c | c
+        · left; exact c
+        · right; exact List.mem_cons_of_mem _ c
+
+/-- `MAXIMUM` really is the maximum of the values -/
+theorem listMax_spec {l : List Rat} {m : Rat} (h : listMax l = some m) : m ∈ l ∧ ∀ x ∈ l, x ≤ m := by
+  cases l with
+  | nil => cases h
+  | cons x xs =>
+    simp only [listMax, Option.some.injEq] at h
+    obtain ⟨a, b, c⟩ := foldl_max_ge xs x
+    rw [h] at a b c
+    refine ⟨?_, ?_⟩
+    · rcases c with c | c
+      · rw [c]; exact List.mem_cons_self ..
+      · exact List.mem_cons_of_mem _ c
+    · intro y hy
+      cases hy with
+      | head => exact a
+      | tail _ h' => exact b y h'
+
+/-! ## int indices -/
+
+theorem unit_item (f : Int) : getitemAxisItem f (f + 1) 1 = .ok (f, 1, 1) := by
+  unfold getitemAxisItem
+  have a : f + 1 - f = 1 := by ring
+  simp [a]
+
+/-- an int index inside `-n .. n-1` selects exactly that plane (negative values count from the end) -/
+theorem int_axis_map {k n : Int} (hn : 0 < n) (hk : -n ≤ k ∧ k < n) :
+    axisOfItem (some (Item.int k)) n = .ok ⟨if k < 0 then k + n else k, 1, 1, 1⟩ := by
+  have hc : checkInt k n = .ok k := by
+    unfold checkInt
+    have h1 : ¬ k < -n := by omega
+    have h2 : ¬ k ≥ n := by omega
+    simp [h1, h2]
+  have hl : ∀ f, sliceLen f (f + 1) 1 = 1 := by intro f; simp [sliceLen]
+  by_cases hm1 : k = -1
+  · subst hm1
+    have hs : sliceIndices (some (-1)) none none n = .ok (n - 1, n, 1) := by
+      simp only [sliceIndices]
+      have : max (-1 + n) 0 = n - 1 := by omega
+      simp [this]
+    have := unit_item (n - 1)
+    rw [show n - 1 + 1 = n by ring] at this
+    have hl' := hl (n - 1)
+    rw [show n - 1 + 1 = n by ring] at hl'
+    simp only [axisOfItem, optItemSlice, itemSlice, hc, intToSlice, bind, Except.bind, pure, Except.pure, axisOfSlice, hs, this, hl']
+    have e1 : ((-1 : Int) == -1) = true := by decide
+    simp only [e1, if_true, Bool.false_eq_true, if_false, hs, this, hl']
+    have e2 : (-1 : Int) < 0 := by decide
+    simp only [e2, if_true]
+    congr 2; ring
+  · by_cases hneg : k < 0
+    · have hs : sliceIndices (some k) (some (k + 1)) none n = .ok (k + n, k + n + 1, 1) := by
+        simp only [sliceIndices]
+        have h1 : k + 1 < 0 := by omega
+        have h2 : max (k + n) 0 = k + n := by omega
+        have h3 : max (k + 1 + n) 0 = k + n + 1 := by omega
+        simp [hneg, h1, h2, h3]
+      have hb : (k == -1) = false := by simpa using hm1
+      simp only [axisOfItem, optItemSlice, itemSlice, hc, intToSlice, bind, Except.bind, pure, Except.pure, axisOfSlice, hb,
+        Bool.false_eq_true, if_false, if_true, hs, unit_item, hl, hneg]
+    · have hs : sliceIndices (some k) (some (k + 1)) none n = .ok (k, k + 1, 1) := by
+        simp only [sliceIndices]
+        have h1 : ¬ k + 1 < 0 := by omega
+        have h2 : min k n = k := by omega
+        have h3 : min (k + 1) n = k + 1 := by omega
+        simp [hneg, h1, h2, h3]
+      have hb : (k == -1) = false := by simpa using hm1
+      simp only [axisOfItem, optItemSlice, itemSlice, hc, intToSlice, bind, Except.bind, pure, Except.pure, axisOfSlice, hb,
+        Bool.false_eq_true, if_false, if_true, hs, unit_item, hl, hneg]
+
+/-- an int index outside `-n .. n-1` is refused with IndexError (never wrapped or clamped) -/
+theorem int_axis_refused {k n : Int} (hk : k < -n ∨ n ≤ k) : axisOfItem (some (Item.int k)) n = .error .index := by
+  have hc : checkInt k n = .error .index := by
+    unfold checkInt
+    rcases hk with h | h
+    · simp [h]
+    · have : k ≥ n := h
+      simp [this]
+  simp only [axisOfItem, optItemSlice, itemSlice, hc, bind, Except.bind]
 
 end HdVerif.VolLemmas
